@@ -23,7 +23,7 @@ from .framework import crat, parse_crat
 PID = "C08"
 P = "OQuPyVerif.Props.C08."
 THEOREMS = [P + t for t in (
-    "wiring_as_modelled", "propagator_memo_keys_complete", "derivative_rows_match",
+    "wiring_as_modelled", "propagator_memo_keys_complete", "derivative_rows_match", "halfstep_derivative_as_modelled",
     "adjoint_exact_first", "adjoint_exact_second", "objective_invariant",
     "forward_eq_spec_one", "forward_eq_spec_two",
     "model_backprop_eq_spec_one", "backward_order_reversed", "model_backprop_eq_spec_two",
@@ -118,6 +118,15 @@ def real_system_parts(M, dissipator, coeffs):
     c = coeffs
 
     def ham(*x):
+        if dissipator == "pulse":
+            # a bare drive: at x0 == 0 the half-step propagator is exactly REAL (H is a multiple of
+            # sigma_y, or zero) while its derivative w.r.t. x0 is purely imaginary
+            h = 0.5 * x[0] * sx
+            if M >= 2:
+                h = h + 0.5 * x[1] * sy
+            if M >= 3:
+                h = h + 0.25 * x[2] * sy
+            return h
         h = c[0] * sz + x[0] * sx
         if M >= 2:
             h = h + x[1] * sz
@@ -347,6 +356,38 @@ def gen_case(rng, tier, i):
 REUSE_CALLS = [(0.2, 1), (0.1, 2)]      # (dt, num_steps) of the consecutive calls
 
 
+def special_tables(tier):
+    """(name, M, N, parameter array) — tables with exact zeros and non-float64 dtypes"""
+    out = [("all-zero pulse", 1, 1, np.zeros((2, 1))),
+           ("integer dtype (ones)", 1, 1, np.ones((2, 1), dtype=int)),
+           ("float32 dtype", 1, 1, np.array([[0.375], [-0.625]], dtype=np.float32))]
+    if tier != "quick":
+        out += [("zeros at the pulse ends", 2, 2,
+                 np.array([[0.0, 0.7], [0.4, -0.3], [-0.6, 0.5], [0.0, 0.2]])),
+                ("integer dtype (zeros and ones)", 2, 1, np.array([[0, 1], [1, 0]], dtype=int)),
+                ("all-zero pulse, integer dtype", 2, 1, np.zeros((2, 2), dtype=int))]
+    return out
+
+
+def special_cases(rng, tier):
+    """numerically differentiated derivatives at special parameter tables; the model's P, P' come
+    from a fresh object with user-supplied (Frechet) derivatives at the same values as float64"""
+    out = []
+    for name, M, n, params in special_tables(tier):
+        used = make_real_system(M, "pulse", [0.5, 0.2, 0.1], derivs="numdiff")
+        fresh = make_real_system(M, "pulse", [0.5, 0.2, 0.1], derivs="frechet")
+        p64 = np.array(params, dtype=np.float64)
+        pf, df = fresh.get_propagators(DT, p64), fresh.get_propagator_derivatives(DT, p64)
+        pts = [rand_pt(rng, n, rand_bonds(rng, n, 2))]
+        out.append(dict(desc={"E": 1, "N": n, "M": M, "bonds": "rand<=2", "pt_kinds": ["random"],
+                              "system": "bare-drive-numdifftools", "target": "array",
+                              "table": name, "dtype": str(params.dtype)},
+                        pts=pts, n=n, M=M, rho0=_grid(rng, (2, 2), 8), tgt=_grid(rng, (2, 2), 8),
+                        system=used, params=params, props=[pf(k) for k in range(n)],
+                        dprops=[df(k) for k in range(n)], grad_rtol=1e-6))
+    return out
+
+
 def reuse_cases(rng, M, coeffs=(0.5, 0.2, 0.1)):
     used = make_real_system(M, "param", list(coeffs), derivs="numdiff")
     shared = [round(rng.uniform(-1, 1), 3) for _ in range(M)]
@@ -388,6 +429,7 @@ def correspondence(res, tier, rng):
     # history shows up as a disagreement
     for M in ([2] if tier == "quick" else [1, 2, 3]):
         cases += reuse_cases(rng, M)
+    cases += special_cases(rng, tier)
     # cases through the library's own numerically differentiated propagator derivatives
     nd = 0 if tier == "quick" else 4
     for j in range(nd):
@@ -547,7 +589,8 @@ def judge(res, key, spec, pts, rho0, tgt, params, ptdesc, derivs="frechet", syst
             "difference of the forward dynamics (compute_dynamics, piecewise-constant controls)",
             "environments": ptdesc, "system": {"M": spec[0], "dissipator": spec[1], "coeffs": spec[2],
                                                "propagator_derivatives": derivs},
-            "parameters": np.array(params).tolist(), "dt": pts[0].dt, "num_steps": len(pts[0]),
+            "parameters": np.array(params).tolist(), "parameters_dtype": str(np.array(params).dtype),
+            "dt": pts[0].dt, "num_steps": len(pts[0]),
             "earlier_calls_on_the_same_system_object": history or [],
             "initial_state": _cplx(rho0),
             "target_derivative": ("callable rho -> W*rho (objective 1/2 sum W rho^2), W below"
@@ -643,10 +686,74 @@ def search(res):
     reuse_search(res)
     for key in MIXED_KEYS:
         mixed_search(res, key)
+    for key in SPECIAL_KEYS:
+        special_search(res, key)
 
 
 MIXED_KEYS = ["fd:mixed-table:numdifftools:M=2:N=2", "fd:mixed-table:numdifftools:M=3:N=1",
               "fd:mixed-table:user-derivs:M=2:N=2", "fd:mixed-table:user-derivs:M=3:N=2"]
+
+
+SPECIAL_KEYS = ["fd:special-table:numdifftools:zero-pulse:M=1:N=2",
+                "fd:special-table:numdifftools:zero-ends:M=2:N=2",
+                "fd:special-table:numdifftools:int-ones:M=1:N=1",
+                "fd:special-table:numdifftools:int-zeros-ones:M=2:N=1",
+                "fd:special-table:numdifftools:float32:M=1:N=1",
+                "fd:special-table:user-derivs:int-ones:M=2:N=1",
+                "fd:special-table:user-derivs:zero-pulse:M=1:N=2"]
+
+
+def special_search(res, key):
+    """bare-drive Hamiltonian (propagator real at x0 = 0, derivative imaginary) at parameter tables
+    with exact zeros, and parameter arrays of integer / float32 dtype: finite differences of the
+    objective, and the same values passed as float64"""
+    import oqupy.gradient as G
+    parts = dict(x.split("=") for x in key.split(":") if "=" in x)
+    M, n = int(parts["M"]), int(parts["N"])
+    kind = key.split(":")[3]
+    derivs = "numdiff" if "numdifftools" in key else "frechet"
+    r = random.Random(hash_key(key))
+    if kind == "zero-pulse":
+        params = np.zeros((2 * n, M))
+    elif kind == "zero-ends":
+        params = np.array([[round(r.uniform(-1, 1), 3) for _ in range(M)] for _ in range(2 * n)])
+        params[0, 0] = 0.0
+        params[-1, 0] = 0.0
+    elif kind == "int-ones":
+        params = np.ones((2 * n, M), dtype=int)
+    elif kind == "int-zeros-ones":
+        params = np.array([[(k + j) % 2 for j in range(M)] for k in range(2 * n)], dtype=int)
+    elif kind == "float32":
+        params = np.array([[r.randrange(-8, 9) / 8.0 for _ in range(M)] for _ in range(2 * n)],
+                          dtype=np.float32)
+    else:
+        res.notes.append("no special table %r" % kind)
+        return None
+    spec = (M, "pulse", [0.5, 0.2, 0.1])
+    pts = [rand_pt(r, n, rand_bonds(r, n, 2))]
+    rho0 = np.array([[0.75, 0.25 - 0.125j], [0.25 + 0.125j, 0.25]])
+    tgt = np.array([[0.5, 0.25 + 0.5j], [0.125, 0.5]])
+    ptdesc = {"kind": "hand-built random rank-4 MPOs, random.Random(hash of the key) stream",
+              "hamiltonian": "0.5*x0*sigma_x (+ 0.5*x1*sigma_y + 0.25*x2*sigma_y), no dissipator",
+              "parameter_table": kind, "parameters_dtype": str(params.dtype)}
+    ok = judge(res, key, spec, pts, rho0, tgt, params, ptdesc, derivs=derivs)
+    if params.dtype != np.float64:
+        # the same values as float64 must give the same gradient
+        g = []
+        for p in (params, np.array(params, dtype=np.float64)):
+            system = make_real_system(M, "pulse", spec[2], derivs=derivs)
+            rr = G.state_gradient(system=system, initial_state=rho0.copy(), target_derivative=tgt.copy(),
+                                  process_tensors=list(pts), parameters=p, progress_type="silent")
+            g.append(np.array(rr["gradient"], dtype=complex))
+        diff = float(np.abs(g[0] - g[1]).max())
+        if diff > FD_RTOL * max(float(np.abs(g[1]).max()), 1e-12):
+            ok = False
+            res.fail(key + ":vs-float64", {
+                "api": "oqupy.state_gradient", "what": "the gradient changes when the same parameter "
+                "values are passed as float64 instead of %s" % params.dtype, "environments": ptdesc,
+                "parameters": params.tolist(), "parameters_dtype": str(params.dtype),
+                "gradient": _cplx(g[0]), "gradient_float64": _cplx(g[1]), "max_difference": diff})
+    return ok
 
 
 def mixed_table(r, n, M):
@@ -713,6 +820,10 @@ def replay_one(res, payload):
         return reuse_search(res, only=base)
     if base.startswith("fd:mixed-table:"):
         return mixed_search(res, base)
+    if base.startswith("fd:special-table:"):
+        if base.endswith(":vs-float64"):
+            base = base[:-len(":vs-float64")]
+        return special_search(res, base)
     found = None
     for item in search_cases(payload.get("seed", res.seed), 40) + [
             ("fd:random-pt:numdifftools:E=2:N=1:M=1", "random", 1, 1, "param", ([[1, 1], [1, 1]], 7))]:
